@@ -847,4 +847,126 @@ theorem movingPlan_correct {op : α → α → α} (hop : Assoc op) (chunks : Li
   rw [foldl_oop_flatten hop, ← Dask.Lemmas.Scan.ofold_append hop, ← Dask.Lemmas.Scan.ofold_append hop]
   rw [(movingPlan_tiles chunks window hsup x i hi m hm t ht0 ht).1]
 
+/-! ### boundary kinds are the NumPy pad index maps -/
+
+theorem pad_ranges (n q : Int) (_hn : 0 < n) (h1 : -n ≤ q) (h2 : q < 2 * n) :
+    (0 ≤ padWrap n q ∧ padWrap n q < n) ∧ (0 ≤ padSymmetric n q ∧ padSymmetric n q < n) ∧
+    (0 ≤ padEdge n q ∧ padEdge n q < n) := by
+  unfold padWrap padSymmetric padEdge
+  refine ⟨?_, ?_, by omega⟩
+  · split
+    · omega
+    · split <;> omega
+  · split
+    · omega
+    · split <;> omega
+
+theorem boundarySrc_periodic (n depth p : Int) :
+    boundarySrc .periodic n depth p = some (padWrap n (p - depth)) := by
+  unfold boundarySrc padWrap
+  split
+  · have a1 : ¬ (p - depth < 0) := by omega
+    have a2 : ¬ (p - depth ≥ n) := by omega
+    simp [a1, a2]
+  · split
+    · have a1 : p - depth < 0 := by omega
+      simp only [a1, if_true]; congr 1; omega
+    · have a1 : ¬ (p - depth < 0) := by omega
+      have a2 : p - depth ≥ n := by omega
+      simp only [a1, a2, if_true, if_false]
+
+theorem boundarySrc_reflect (n depth p : Int) :
+    boundarySrc .reflect n depth p = some (padSymmetric n (p - depth)) := by
+  unfold boundarySrc padSymmetric
+  split
+  · have a1 : ¬ (p - depth < 0) := by omega
+    have a2 : ¬ (p - depth ≥ n) := by omega
+    simp [a1, a2]
+  · split
+    · have a1 : p - depth < 0 := by omega
+      simp only [a1, if_true]; congr 1; omega
+    · have a1 : ¬ (p - depth < 0) := by omega
+      have a2 : p - depth ≥ n := by omega
+      simp only [a1, a2, if_true, if_false]; congr 1; omega
+
+theorem boundarySrc_nearest (n depth p : Int) (hn : 0 < n) :
+    boundarySrc .nearest n depth p = some (padEdge n (p - depth)) := by
+  unfold boundarySrc padEdge
+  split
+  · congr 1; omega
+  · split
+    · simp only; congr 1; omega
+    · simp only; congr 1; omega
+
+theorem boundarySrc_constant (n depth p : Int) :
+    boundarySrc .constant n depth p = (if 0 ≤ p - depth ∧ p - depth < n then some (p - depth) else none) := by
+  unfold boundarySrc
+  split
+  · have : 0 ≤ p - depth ∧ p - depth < n := by omega
+    rw [if_pos this]
+  · have : ¬ (0 ≤ p - depth ∧ p - depth < n) := by omega
+    rw [if_neg this]
+    split <;> rfl
+
+/-! ### overlap then trim: chunk arithmetic round trip (boundary "none") -/
+
+theorem trimInternalChunks_length (bd : List Int) (l r : Int) (bn : Bool) :
+    (trimInternalChunks bd l r bn).length = bd.length := by
+  simp [trimInternalChunks]
+
+theorem overlapInternal_concat (b0 : Int) (mid : List Int) (last l r : Int) :
+    overlapInternalChunks (b0 :: (mid ++ [last])) l r
+      = (b0 + r) :: (mid.map (· + l + r) ++ [last + l]) := by
+  unfold overlapInternalChunks
+  cases hm : mid ++ [last] with
+  | nil => simp at hm
+  | cons a as =>
+    simp only []
+    rw [← hm, List.dropLast_concat, List.getLastD_concat]
+    rfl
+
+theorem overlapTrim_chunks_id (cks : List Int) (l r : Int) :
+    trimInternalChunks (overlapInternalChunks cks l r) l r true = cks := by
+  cases cks with
+  | nil => rfl
+  | cons b0 rest =>
+    rcases List.eq_nil_or_concat rest with h | ⟨mid, last, h⟩
+    · subst h
+      simp [overlapInternalChunks, trimInternalChunks]
+    · rw [List.concat_eq_append] at h
+      subst h
+      rw [overlapInternal_concat]
+      apply List.ext_getElem?
+      intro i
+      unfold trimInternalChunks
+      simp only [List.getElem?_map, List.length_cons, List.length_append, List.length_map,
+        List.length_nil, Nat.zero_add]
+      by_cases hi : i < mid.length + 1 + 1
+      · rw [List.getElem?_range hi]
+        simp only [Option.map_some]
+        cases i with
+        | zero =>
+          simp only [List.getD_cons_zero, List.getElem?_cons_zero]
+          simp
+        | succ k =>
+          simp only [List.getD_cons_succ, List.getElem?_cons_succ]
+          by_cases hk : k < mid.length
+          · have e1 : (mid.map (· + l + r) ++ [last + l]).getD k 0 = mid[k] + l + r := by
+              simp [List.getD_eq_getElem?_getD, List.getElem?_append_left, hk]
+            have e2 : (mid ++ [last])[k]? = some mid[k] := by
+              simp [List.getElem?_append_left, hk]
+            rw [e1, e2]
+            simp
+            omega
+          · have hk' : k = mid.length := by omega
+            subst hk'
+            have e1 : (mid.map (· + l + r) ++ [last + l]).getD mid.length 0 = last + l := by
+              simp [List.getD_eq_getElem?_getD]
+            have e2 : (mid ++ [last])[mid.length]? = some last := by simp
+            rw [e1, e2]
+            simp
+      · have h1 : (List.range (mid.length + 1 + 1))[i]? = none := List.getElem?_eq_none (by simp; omega)
+        have h2 : (b0 :: (mid ++ [last]))[i]? = none := List.getElem?_eq_none (by simp; omega)
+        rw [h1, h2]; rfl
+
 end Dask.Lemmas.Window
